@@ -43,6 +43,15 @@ CHECKS = {
     "C13": (MC, "explicit-state search over chained operation histories on a pool of real value objects; whole-pool snapshot comparison after every transition",
             "Every history of length <= 2 (quick) / 3 for alias-prone first steps (thorough) of ~60 operation kinds (arithmetic incl. numbers and ndarrays, six comparisons, conversions, CreateCopy variants, ChangingIndex, IndexAsScalar, ConvertFractionValue, validation, formatting, copy/deepcopy/Copy/pickle) applied to a fresh pool of 18 value objects of every class and container kind plus 11 caller-owned containers; later steps operate on results or operands of earlier ones; after every transition every pool member and container is compared with its snapshot at creation; copies and pickles must be ==.",
             "operations on disjoint objects commute (shared state is the database: C15); Array/FractionScalar pickling is outside the property"),
+    "C02": (EX, "bounded-exhaustive enumeration of every unit pair x category x conversion route on the real code, differential against the database's float conversion",
+            "Every ordered unit pair of every quantity type (37 040) with the unit's default category - plus every category on the pairs from its default unit (quick) or every category of the type (thorough, ~120k combinations) - goes through 16 public routes (Scalar.GetValue, CreateCopy(unit), ChangeScalars, Quantity.ConvertScalarValue/Convert, db.Convert on float/int/list/tuple/ndarray of length 0,1,4/exponent lists/by category, Array.GetValues incl. list and tuple of tuples, Array.CreateCopy, FixedArray.IndexAsScalar/ChangingIndex with both use_value_unit, UnitSystemManager.ConvertToCurrent/ConvertScalarToCurrent, FractionScalar) over 4 values; every element must equal db.Convert and results keep category, quantity type and unit. Own-unit queries run on all 771 derived states of the depth-3 graph; category defaults in a world with non-zero defaults in non-base units incl. affine.",
+            "db.Convert on floats is the reference (judged by C01); 4-value alphabet"),
+    "C06": (EX, "complete enumeration of the shipped table; every row parsed by an independent grammar and compared with the exact-rational composition of its parts",
+            "All 1548 rows are visited: 924 decompose into registered units (product/quotient/power/numeric multiplier, also the row's own symbol read as atom**n) and 150 atomic rows are named SI-prefixed forms of another row; the row factor must equal the composition of the parts' factors as exact rationals built from the written literals, within the precision those literals carry, and the same comparison is repeated through the implementation's own conversions. 55 rows disagree today and are recorded one by one (keyed by row, decomposition and observed factor).",
+            "rows the grammar cannot decompose are counted, not judged; literals with < 4 significant digits are exact conventional factors"),
+    "C08": (EX, "bounded-exhaustive enumeration of every unit pair with constructed less/greater/exactly-equal probes judged by exact rational amounts; all pairs of an object zoo for equality",
+            "For all 37 040 ordered unit pairs, two amounts and probes physically less, greater (1e-6) and - where exact as rationals and in both float directions (12.5k pairs) - equal, the four order operators are evaluated in both operand orders on Scalar (all pairs) and FractionScalar (quick: 12 units per type; thorough: all) and compared with the exact base-unit amounts; all 36k ordered pairs of quantity types must raise TypeError; ==/!= over all ordered pairs of a 59-object zoo never raise, are reflexive, symmetric, mutually consistent and hash-consistent.",
+            "near-ties differing only by rounding are excluded by construction (the property speaks of physical amounts)"),
 }
 
 NOT_YET = {}
